@@ -1,0 +1,79 @@
+// Copyright 2023 Google LLC
+//
+// Licensed under the Apache License, Version 2.0 (the "License");
+// you may not use this file except in compliance with the License.
+// You may obtain a copy of the License at
+//
+//     http://www.apache.org/licenses/LICENSE-2.0
+//
+// Unless required by applicable law or agreed to in writing, software
+// distributed under the License is distributed on an "AS IS" BASIS,
+// WITHOUT WARRANTIES OR CONDITIONS OF ANY KIND, either express or implied.
+// See the License for the specific language governing permissions and
+// limitations under the License.
+
+//go:build verif
+
+package npm
+
+import (
+	"sort"
+
+	"deps.dev/util/resolve"
+)
+
+// VerifNode is a read-only copy of one directory of the install tree that
+// lies behind a resolved graph. It exists only in builds with the verif tag.
+type VerifNode struct {
+	Package        string // Name of the package installed in this directory.
+	Version        string // Concrete version installed.
+	ID             resolve.NodeID
+	Processed      bool
+	Bundled        bool
+	Children       map[string]*VerifNode // node_modules entries by package name.
+	Alias          map[string]*VerifNode // node_modules entries installed under an alias.
+	Protected      []string
+	AliasProtected []string
+}
+
+// VerifTree, when set, receives the final install tree at the end of every
+// successful Resolve, before the graph is returned.
+var VerifTree func(root *VerifNode)
+
+func verifEmit(root *treeNode) {
+	if VerifTree == nil {
+		return
+	}
+	VerifTree(verifCopy(root))
+}
+
+func verifCopy(n *treeNode) *VerifNode {
+	v := &VerifNode{
+		Package:   n.pkg.Name,
+		Version:   n.ver.Version,
+		ID:        n.id,
+		Processed: n.processed,
+		Bundled:   n.bundled != nil,
+		Children:  map[string]*VerifNode{},
+		Alias:     map[string]*VerifNode{},
+	}
+	for pk, c := range n.children {
+		v.Children[pk.Name] = verifCopy(c)
+	}
+	for a, c := range n.alias {
+		v.Alias[a] = verifCopy(c)
+	}
+	for pk, ok := range n.protected {
+		if ok {
+			v.Protected = append(v.Protected, pk.Name)
+		}
+	}
+	for a, ok := range n.aliasProtected {
+		if ok {
+			v.AliasProtected = append(v.AliasProtected, a)
+		}
+	}
+	sort.Strings(v.Protected)
+	sort.Strings(v.AliasProtected)
+	return v
+}
